@@ -33,6 +33,7 @@ A program is described by a JSON-able tuple `(family, *params)`;
 from __future__ import annotations
 
 import itertools
+import re
 
 # ---------------------------------------------------------------------------
 # contexts
@@ -644,6 +645,66 @@ def _d1():
                     '    t = (a, b) if u <= v else (b, a)', '    p, q = t', '    return p - q, t']
         return Program(('D1', sh, c, op), 'D', f'D1:{sh}:w{W}', fn('f', [('u', 's64'), ('v', 's64')], body),
                        args, 'F64E')
+    return gen, build
+
+
+# ---- D2: an alias of a whole aggregate (`s = t`), then `t` is REBOUND on a path that joins the first definition ----
+
+D2_AGG = {
+    # kind: (initial value, rebind from the parts of the alias, read the alias -> scalar expressions, parts binding)
+    'tup': dict(init='({U}, {V})', parts='p, q = s', new='(q, {Epq})', rd='a, b = s', vals=('a', 'b'),
+                new2='({Euv}, {U})', cur='c, d = t', curvals=('c', 'd')),
+    'tuplist': dict(init='([{U}, {V}], {U})', parts='ps, q = s', new='([q, {Ep0q}], ps[1])', rd='aa, b = s',
+                    vals=('aa[0]', 'b'), new2='([{Euv}, {V}], {V})', cur='cc, d = t', curvals=('cc[1]', 'd')),
+    'list': dict(init='[{U}, {V}]', parts='', new='[s[1], {Es}]', rd='', vals=('s[0]', 's[1]'),
+                 new2='[{Euv}, {U}]', cur='', curvals=('t[0]', 't[1]')),
+}
+D2_CTRL = ['for', 'while', 'for-outer', 'if', 'ifelse']
+
+
+@family('D2')
+def _d2():
+    def gen(full):
+        if full:
+            for agg, ctl, c, op in itertools.product(D2_AGG, D2_CTRL, ['F64E', 'F32Z', 'F64P', 'F32N'], ['add', 'mul']):
+                yield ('D2', agg, ctl, c, op)
+        else:
+            for agg, ctl in itertools.product(D2_AGG, D2_CTRL):
+                yield ('D2', agg, ctl, 'F64E', 'add')
+
+    def build(agg, ctl, c, op):
+        W = width(c)
+        env = Env(u=64, v=64, p=W, q=W)
+        env.w['ps[0]'] = W
+        env.w['s[0]'] = W
+        env.w['s[1]'] = W
+        sub = {'U': env.o('u', W), 'V': env.o('v', W), 'Euv': ex(op, env, W, 'u', 'v'),
+               'Epq': ex(op, env, W, 'p', 'q'), 'Ep0q': ex(op, env, W, 'ps[0]', 'q'), 'Es': ex(op, env, W, 's[0]', 's[1]')}
+        A = {k: (v.format(**sub) if isinstance(v, str) else v) for k, v in D2_AGG[agg].items()}
+        opt = lambda ln: [ln] if ln else []          # noqa: E731
+        step = ['s = t'] + opt(A['parts']) + [f't = {A["new"]}'] + opt(A['rd']) + [f'acc = acc + {A["vals"][0]}']
+        if ctl == 'for':
+            lines = [f't = {A["init"]}', f'acc = {sub["V"]}', 'for _ in range(3):'] + ind(step) + \
+                    opt(A['cur']) + [f'return acc, {A["curvals"][0]}, {A["curvals"][1]}']
+        elif ctl == 'while':
+            lines = [f't = {A["init"]}', f'acc = {sub["V"]}', 'k = 0.0', 'while k < 3:'] + ind(step + ['k = k + 1']) + \
+                    opt(A['cur']) + [f'return acc, {A["curvals"][0]}, {A["curvals"][1]}']
+        elif ctl == 'for-outer':
+            inner = (['s2 = t'] + opt(A['parts'].replace('= s', '= s2'))
+                     + ['t = ' + re.sub(r'\bs\[', 's2[', A['new'])])
+            lines = [f't = {A["init"]}', 's = t', 'for _ in range(2):'] + ind(inner) + \
+                    opt(A['rd']) + opt(A['cur']) + \
+                    [f'return {A["vals"][0]}, {A["vals"][1]}, {A["curvals"][0]}, {A["curvals"][1]}']
+        else:
+            lines = [f't = {A["init"]}', 's = t', 'if u < v:', f'    t = {A["new2"]}']
+            if ctl == 'ifelse':
+                lines += ['else:', f'    t = {A["init"].replace(sub["U"], "__X__").replace(sub["V"], sub["U"]).replace("__X__", sub["V"])}']
+            lines += opt(A['rd']) + opt(A['cur']) + \
+                [f'return {A["vals"][0]}, {A["vals"][1]}, {A["curvals"][0]}, {A["curvals"][1]}']
+        body = [f'with {c}:'] + ind(lines)
+        return Program(('D2', agg, ctl, c, op), 'D', f'D2:{agg}:{ctl}:{op}:w{W}',
+                       fn('f', [('u', 's64'), ('v', 's64')], body), ['s64', 's64'], 'F64E',
+                       sig={'aggregate': agg, 'rebind': ctl})
     return gen, build
 
 
